@@ -1,7 +1,7 @@
 //! C12 / C13: laws of the implicit-conversion relations of `hir::common::Ty`, on types built from symbolic bytes.
 //!
 //! A type is described by 7 bytes: [outer constructor, inner constructor, leaf kind, width, mutable, size, uid].
-use hir::common::{MemberTy, Name, ParamTy, Ty};
+use hir::common::{BinaryOutput, MemberTy, Name, ParamTy, Ty, TypedOp};
 use internment::Intern;
 use std::slice;
 
@@ -166,9 +166,35 @@ pub unsafe extern "C" fn harness_laws(p: *const u8) -> u32 {
         if let Ty::Distinct { sub_ty, .. } = &a {
             if **sub_ty == c && !(cast && c.can_cast_to(&a)) { r |= 64; }
         }
+        // ... "used in ... binary operations": no binary operator has an output type for a nominal operand and a
+        // different nominal type or its own (strongly typed) underlying type, in either operand order. Untyped
+        // literals are the documented exception; `any` / unknown / always-jumps operands are not values of a type.
+        let literal = matches!(c, Ty::IInt(0) | Ty::UInt(0) | Ty::Float(0));
+        let not_a_value = matches!(c, Ty::Any | Ty::Unknown | Ty::AlwaysJumps | Ty::Nil | Ty::Void);
+        if (other_nominal || underlying) && !literal && !not_a_value {
+            let mut accepted = false;
+            for op in BINOPS {
+                if op.get_possible_output_ty(&a, &c).is_some_and(|o| op.can_perform(&o.max_ty))
+                    || op.get_possible_output_ty(&c, &a).is_some_and(|o| op.can_perform(&o.max_ty)) { accepted = true; }
+            }
+            if accepted {
+                r |= 128;
+                // cause class (bits 20..23): 1 = a distinct with its own strongly typed, non-integer underlying type
+                // (Ty::max goes through has_semantics_of, which only refuses strongly typed integers); 2 = anything else
+                let non_int_underlying = underlying && !matches!(c.absolute_ty(), Ty::IInt(_) | Ty::UInt(_));
+                r |= if non_int_underlying { 1 << 20 } else { 2 << 20 };
+            }
+        }
     }
     r
 }
+
+const BINOPS: [hir::BinaryOp; 20] = [
+    hir::BinaryOp::Add, hir::BinaryOp::Sub, hir::BinaryOp::Mul, hir::BinaryOp::Div, hir::BinaryOp::Mod,
+    hir::BinaryOp::Lt, hir::BinaryOp::Gt, hir::BinaryOp::Le, hir::BinaryOp::Ge, hir::BinaryOp::Eq, hir::BinaryOp::Ne,
+    hir::BinaryOp::BAnd, hir::BinaryOp::BOr, hir::BinaryOp::Xor, hir::BinaryOp::LShift, hir::BinaryOp::RShift,
+    hir::BinaryOp::LAnd, hir::BinaryOp::LOr, hir::BinaryOp::Eq, hir::BinaryOp::Ne,
+];
 
 /// prints what the relations say about the two described types (triage aid for replays; never run symbolically)
 #[no_mangle]
